@@ -87,7 +87,15 @@ class Interp:
             inner = self.fresh_value(t.inner, hint)
             return VOptObj(p.fresh(hint + "_present", z3.BoolSort()), inner)
         if isinstance(t, TDictRec):
-            return VDictRec({k: self.fresh_field(ft, "%s_%s" % (hint, k)) for k, ft in t.fields.items()})
+            # a field declared as "key?" may be absent: its presence is decided by forking (both shapes are explored)
+            fs = {}
+            for k, ft in t.fields.items():
+                if k.endswith("?"):
+                    k = k[:-1]
+                    if not p.branch(p.fresh("%s_has_%s" % (hint, k), z3.BoolSort())):
+                        continue
+                fs[k] = self.fresh_field(ft, "%s_%s" % (hint, k))
+            return VDictRec(fs)
         raise Unsupported("fresh of %s" % (t,))
 
     def fresh_field(self, ft, hint):
